@@ -183,6 +183,9 @@ def foreign_name(decl):
     for n in ("MyVtblThing", "RetTmp_like", "Render_Context", "TaggedHandle", "Tagged", "render_frame", "use_thing", "use_tmp", "use_rctx", "use_handle"):
         if ("struct %s " % n) in decl or ("struct %s_" % n) in decl or (" %s;" % n) in decl or ("using %s =" % n) in decl or (" %s(" % n) in decl:
             return n
+    for n in ("Mesure", "Mixer", "use_mesure", "use_mixer"):
+        if ("struct %s " % n) in decl or (" %s;" % n) in decl or (" %s(" % n) in decl:
+            return n
     if "struct Rec" in decl or "use_recs(" in decl:
         return "bulk"
     return "other"
